@@ -33,10 +33,10 @@ def needs(notes: str) -> str:
 
 for d in sorted(glob.glob(ROOT + "/*/")):
     name = os.path.basename(d.rstrip("/"))
-    m = re.match(r"(R2-)?(C\d\d)-(\d)$", name)
+    m = re.match(r"(R[23]-)?(C\d\d)-(\d)$", name)
     if not m:
         continue
-    rnd, prop = (2 if m.group(1) else 1), m.group(2)
+    rnd, prop = (int(m.group(1)[1]) if m.group(1) else 1), m.group(2)
     patch = open(d + "patch.diff").read()
     notes = open(d + "notes.md").read() if os.path.exists(d + "notes.md") else ""
     confirm = json.load(open(d + "confirm.json")) if os.path.exists(d + "confirm.json") else None
